@@ -1,13 +1,9 @@
-(** send_data: everything between the 354 and the final reply is legal SMTP data, for a message in
-    which is_multipart() accepts no field (no multipart walk). *)
+(** send_data: everything between the 354 and the final reply is legal SMTP data. *)
 From Qv Require Import Common.Bytes Gen.GenQrdata Model.Mime Model.QrData Model.QrDataL2 Proofs.QrMemLemmas
   Spec.SmtpDataSpec Spec.DeliverSpec Proofs.QrPlainProofs Proofs.QrNeedRecodeProofs Proofs.QrPlainSpecProofs
   Proofs.QrQpProofs Proofs.QrQpDecodeProofs Proofs.QrWireProofs Proofs.QrWrapHeaderProofs
-  Proofs.QrPiecesProofs Proofs.QrSendQpTotalProofs Proofs.QrEntityProofs.
+  Proofs.QrPiecesProofs Proofs.QrSendQpTotalProofs Proofs.QrEntityProofs Proofs.QrWalkProofs Proofs.QrWalkLegalProofs.
 Require Import Lia.
-
-Lemma outof_wr st x : outof (wr st x) = outof st ++ x.
-Proof. unfold outof, wr. cbn [out rev]. rewrite concat_app. cbn [concat]. now rewrite app_nil_r. Qed.
 
 (** what the peer has seen of the DATA phase: a completed transfer is legal data followed by the
     terminating dot line; a transfer given up before the first octet is empty *)
@@ -54,4 +50,37 @@ Proof.
       unfold must_recode. rewrite <- longrun_has_long, <- Fl.
       change (has_8bit m) with (existsb is8 m). rewrite <- F8, E8. reflexivity.
     + rewrite E. cbn [bind]. do 3 eexists. split; [reflexivity|]. apply (finish_legal ext8 st1 t). exact Gt.
+Qed.
+
+(** the general case: a transfer given up half way (a part of a multipart message turns out to have
+    8-bit octets in its header or a broken Content-Type) has written complete legal lines and
+    possibly the beginning of one *)
+Definition sent_legal_any (ext8 : bool) (r : Run unit) : Prop :=
+  match r with
+  | Done _ st => exists d, outof st = d ++ TERM_LF /\ legal_data ext8 d
+  | Die _ st => exists d t, outof st = d ++ t /\ legal_data ext8 d /\ legal_line ext8 t
+  end.
+
+Theorem send_data_legal m helo ext8 : helo_ok helo -> byte_list m ->
+  exists fl q r, send_data m helo ext8 = Ok (fl, q, r) /\ sent_legal_any ext8 r.
+Proof.
+  intros Hhelo Hb. unfold send_data. cbv zeta.
+  assert (Hw : 0 + length m <= length m) by lia.
+  rewrite (need_recode_ok m 0 (length m) Hw). cbn [bind].
+  assert (Em : sub m 0 (length m) = m) by (unfold sub; cbn [skipn]; apply firstn_all).
+  rewrite Em. set (fl := nr_fun m flags0 0 false). set (st0 := mkSt [] true).
+  assert (G0 : good ext8 [] st0 []) by (apply (good_init ext8 st0)).
+  assert (Fin : forall st t, good ext8 [] st t ->
+            sent_legal_any ext8 (Done tt (wr st (if lastlf st then TERM_LF else TERM_NOLF)))).
+  { intros st t G. apply (finish_legal ext8 st t G). }
+  destruct (takes_qp ext8 fl) eqn:Eq.
+  - destruct (entity_legal m helo ext8 Hhelo Hb [] (S (length m)) 0 (length m) st0 Hw ltac:(lia) G0) as (res & E & Hres).
+    rewrite E. cbn [bind]. destruct res as [[] st1|why st1].
+    + destruct Hres as (t & Gt & _). do 3 eexists. split; [reflexivity|]. apply (Fin st1 t Gt).
+    + destruct Hres as (t & X & Eo & (ls & EX & Fls & Hc) & Hl). do 3 eexists. split; [reflexivity|].
+      exists (join_crlf ls), t. cbn [app] in Eo. rewrite Eo, EX. split; [reflexivity|]. split; [exists ls; auto|exact Hl].
+  - unfold liftS.
+    destruct (plain_piece ext8 m 0 (length m) [] st0 Hw) as (st1 & t & E & Gt & _); [|exact G0|].
+    + rewrite Em. rewrite <- (window_decision m ext8). exact Eq.
+    + rewrite E. cbn [bind]. do 3 eexists. split; [reflexivity|]. apply (Fin st1 t Gt).
 Qed.
